@@ -1296,14 +1296,11 @@ fn tamper_ops(pid: &[u8], nums: (u64, u64, u64), cks: &[u8], em: &[u8], tn: u64,
             ops.push((2, json!(["x", pa, 1u64 << bit])));
         }
         // a digit moved across the id / index boundary: "ab1" index 2 <-> "ab" index 12 ...
+        // (with the length prefix left alone the decoder reads one byte of the index into the id:
+        // every later field shifts)
         if n > 0 {
-            let mut b = varint_vec(n as u64 - 1);
-            let last = pid[n - 1];
-            let moved = format!("{}{}", (last % 10), nums.0);
+            let moved = format!("{}{}", pid[n - 1] % 10, nums.0);
             if let Ok(v) = moved.parse::<u64>() {
-                // the file keeps only n-1 id bytes; the op rewrites prefix and index around them, so
-                // it is two splices: expressed as one splice over the last id byte + index
-                let _ = &mut b;
                 ops.push((1, json!(["s", a + n - 1, 1 + sp[2].1, { "bytes": varint_vec(v) }])));
             }
         }
@@ -1403,7 +1400,7 @@ fn heavy_cases(seed: u64, thorough: bool) -> Vec<Prepared> {
             let all = tamper_ops(&pid, nums, cks.as_bytes(), em.as_bytes(), tn, lnt.as_bytes(), pp, thorough);
             // what one op costs on the judging side grows with the number of SHA-256 blocks
             let blocks = meta.len() / 64 + 1;
-            let budget = ((if thorough { 30000 } else { 7000 }) / blocks).clamp(if thorough { 300 } else { 110 }, 4000);
+            let budget = ((if thorough { 30000 } else { 2500 }) / blocks).clamp(if thorough { 300 } else { 70 }, if thorough { 4000 } else { 300 });
             let must = all.iter().filter(|(p, _)| *p == 0).count();
             let rest = all.len() - must;
             let keep_rest = budget.saturating_sub(must);
